@@ -18,8 +18,8 @@ from . import base
 from . import c03
 
 ID = "C04"
-QUICK_RUNS = 6000
-THOROUGH_RUNS = 400000
+QUICK_RUNS = 20000
+THOROUGH_RUNS = 800000
 LEVEL = "exploration"
 RULE = ("one run = one generated program nesting the three scoping constructs to depth <= 8 with re-entry, "
         "every exit kind (return, raise of 14 classes, cancellation, generator close/throw) at each level; "
